@@ -153,6 +153,29 @@ def replay_violation(clsname, rec, spd=None):
     return out
 
 
+def concrete_fallback(clsname, label, rate, sg, frm, lo, hi, recs, npts=160):
+    """the code under test left the fragment the symbolic engine can encode (e.g. a new builtin on the clock period):
+    the verdict of this obligation is INCONCLUSIVE; to still surface a plain violation, the replay oracle is run on a
+    geometric grid of clock frequencies (this is sampling, labelled as such, and only ever adds replay-confirmed violations)"""
+    names = ["%s_covers_ns_at_worst_phases" % n for n in MINS + ["tRC"]] + ["tREFI_cycles_exceed_datasheet_interval"]
+    seen = set()
+    for i in range(npts):
+        f = float(lo) * (float(hi) / float(lo)) ** (i / (npts - 1))
+        for q in names:
+            if q in seen:
+                continue
+            rec = dict(bench=label, q=q, result="sat", s=0.0, expect="unsat", rate=rate, sg=sg, frm=frm, f=str(Fraction(f)),
+                       info="found by the concrete fallback sweep (symbolic encoding failed)")
+            try:
+                rp = replay_violation(clsname, rec)
+            except Exception:
+                continue
+            if rp.get("confirmed"):
+                rec["replay"] = rp
+                recs.append(rec)
+                seen.add(q)
+
+
 def class_job(args):
     clsname, tier = args
     from litedram import modules
@@ -175,6 +198,7 @@ def class_job(args):
                         import traceback
                         recs.append(dict(bench=label, q="encode", result="unknown", s=0.0, expect="unsat", rate=rate, sg=sg, frm=frm,
                                          info="%r %s" % (e, traceback.format_exc()[-400:])))
+                        concrete_fallback(clsname, label, rate, sg, frm, lo, hi, recs)
         for r in recs:
             if r["result"] == "sat" and r["expect"] == "unsat" and "f" in r:
                 try:
@@ -201,6 +225,9 @@ def spd_job(args):
         sg = base.speedgrade
         # the tables the real decoder produced vs the independent JEDEC decode
         tb = datasheet.table(cls, sg, "1x" if cls.memtype == "DDR4" else None)
+        if cls.memtype == "DDR4":
+            for frm_ in ("2x", "4x"):
+                tb["tRFC@" + frm_] = datasheet.table(cls, sg, frm_)["tRFC"]
         for k, v in ref.items():
             got = tb[k][1]
             ok = abs(got - v) <= Fraction(1, 10**6)
@@ -258,6 +285,8 @@ def spd_reference(b):
         out["tRP"] = t(b[26], b[121])
         out["tRAS"] = t(((b[27] & 0x0f) << 8) | b[28])
         out["tRFC"] = t((b[31] << 8) | b[30])
+        out["tRFC@2x"] = t((b[33] << 8) | b[32])
+        out["tRFC@4x"] = t((b[35] << 8) | b[34])
         out["tFAW"] = t(((b[36] & 0x0f) << 8) | b[37])
         out["tRRD"] = t(b[39], b[118])
         out["tCCD"] = t(b[40], b[117])
